@@ -162,3 +162,9 @@ pub fn structure(data: &[u8], quality: ECL, version: Version) -> [u8; 5430] {
 
     interleaved_data
 }
+
+#[cfg(fast_qr_verif)]
+pub(crate) mod verif {
+    pub const LOG: [u8; 256] = super::LOG;
+    pub const ANTILOG: [u8; 256] = super::ANTILOG;
+}
